@@ -89,3 +89,8 @@ def _csf_literals():
 
 
 _csf_literals()
+
+# ---- read_cleartext_body: search for the signature block in the last line only (D19c) ------------
+flag("fixD19cCleartextSearchLastLineOnly", "src/composed/cleartext.rs",
+     r"fn read_cleartext_body<B: BufRead>\(b: &mut B\).*?let search_from = out\.len\(\)\.saturating_sub\(1\);\s*let read = b\.read_line\(&mut out\)\?;.*?\.get\(search_from\.\.\)\s*\.and_then\(\|tail\| tail\.rfind\(\"\\n-----\"\)\)\s*\.map\(\|pos\| pos \+ search_from\);",
+     "D19c repaired: read_cleartext_body searches for the line that starts the signature block from the line break in front of the line just read, not over the whole text read so far")
